@@ -35,6 +35,10 @@ pub broadcast axiom fn ax_enc_dec_i32(big: bool, s: Seq<u8>)
 pub broadcast axiom fn ax_enc_dec_f64(big: bool, s: Seq<u8>)
     requires s.len() == 8
     ensures enc_bits64(big, #[trigger] dec_bits64(big, s)) == s, 0 <= dec_bits64(big, s) < 0x1_0000_0000_0000_0000;
+/// the bit pattern of a double is a 64-bit number (`f64::to_bits` returns a u64); not a broadcast axiom (quantified over
+/// f64 it would not fire on struct fields): the round-trip lemmas call it explicitly
+pub axiom fn ax_fbits_range(v: f64)
+    ensures 0 <= fbits(v) < 0x1_0000_0000_0000_0000;
 pub broadcast axiom fn ax_fbits_of(b: int)
     requires 0 <= b < 0x1_0000_0000_0000_0000
     ensures fbits(#[trigger] f64_of(b)) == b;
